@@ -5,6 +5,7 @@ def handle (line : String) : String :=
   | "LFU" :: rest => LFU.runLine rest
   | "PKL" :: rest => Pickle.runLine rest
   | "FC" :: rest => Pickle.fcLine rest
+  | "ENC" :: rest => Pickle.encLine rest
   | _ => "bad-op"
 
 partial def loop (h : IO.FS.Stream) (out : IO.FS.Stream) : IO Unit := do
